@@ -1221,3 +1221,8 @@ def view_diffs(a: dict, b: dict) -> List[dict]:
         if d:
             out.append(d)
     return out
+
+
+def safe(value: Any, limit: int = 80) -> str:
+    """ASCII-only rendering for protocol/log lines (entity values may hold surrogate-escaped bytes)."""
+    return str(value)[:limit].encode('ascii', 'backslashreplace').decode('ascii')
